@@ -142,6 +142,15 @@ def _match(pat, node, env):
             if pat.value.id != '__':
                 env[pat.value.id] = node
             return True
+    if isinstance(pat, ast.AugAssign) and isinstance(node, ast.Assign) and len(node.targets) == 1 and isinstance(node.value, ast.BinOp) and \
+            type(node.value.op) is type(pat.op) and norm(node.value.left) == norm(node.targets[0]):
+        # N += V  is also spelled  N = N + V  (the normal form of an augmented assignment to a local holding an immutable value)
+        saved = dict(env)
+        if _match(pat.target, node.targets[0], env) and _match(pat.value, node.value.right, env):
+            return True
+        env.clear()
+        env.update(saved)
+        return False
     if type(pat) is not type(node):
         return False
     if isinstance(pat, ast.Constant):
